@@ -3,6 +3,7 @@ package c04deque
 import (
 	"fmt"
 	"testing"
+	"time"
 
 	"github.com/bradenaw/juniper/container/deque"
 	"pgregory.net/rapid"
@@ -12,7 +13,7 @@ import (
 
 var suite = vk.NewSuite("C04")
 
-func TestMain(m *testing.M) { suite.Main(m) }
+func TestMain(m *testing.M) { suite.HangLimit = 60 * time.Second; suite.Main(m) }
 
 // Op is one step of a plan. The integer argument of index/size operations is Base+A where Base is
 // resolved at execution time: "" = 0, "len" = current Len, "free" = cap-Len.
